@@ -101,30 +101,6 @@ Proof.
     apply all_from_app; assumption.
 Qed.
 
-Lemma teardown_from s a p : td_peer a = Some p -> all_from p (snd (step s a)).
-Proof.
-  destruct a; simpl td_peer; try discriminate; intros H; inversion H; subst; cbn [step].
-  - (* DiscoveryReply *)
-    unfold with_source. destruct (find_peer s p) as [pe|] eqn:Ep; [|constructor].
-    destruct (remote_feature pe (nm_addr None)); [|constructor].
-    set (pe0 := {| p_ski := p_ski pe; p_addr := _; p_ents := p_ents pe |}).
-    pose proof (add_entities_ski pe0 m (dm_ents m)) as Hski.
-    destruct (add_entities pe0 m (dm_ents m)) as [pe1 created]. simpl fst in Hski.
-    assert (Hski1 : p_ski pe1 = p) by (rewrite Hski; simpl; exact (find_peer_ski _ _ _ Ep)).
-    match goal with |- context [remove_unlisted ?s2 p ?l ?es] =>
-      pose proof (remove_unlisted_from l es s2 p) as H3; destruct (remove_unlisted s2 p l es) as [s3 evs] end.
-    simpl in *. constructor; [simpl; apply N.eqb_refl|].
-    apply all_from_app; [|exact H3]. rewrite <- Hski1. apply added_from.
-  - (* DiscoveryNotify *)
-    unfold with_source. destruct (find_peer s p) as [pe|]; [|constructor].
-    destruct (remote_feature pe (nm_addr None)); [|constructor].
-    destruct (dm_ents m) as [|d0 dr] eqn:Edm; [apply call_result_from|].
-    rewrite <- Edm. pose proof (notify_entries_from (dm_ents m) s p m) as H1.
-    destruct (notify_entries s p m (dm_ents m)) as [[s1 evs] err]. simpl in *.
-    apply all_from_app; [exact H1 | apply call_result_from].
-  - (* Disconnect *) apply disconnect_from.
-Qed.
-
 (* ---------- a registry call of q produces exactly observations [of_call q ctr] ---------- *)
 Definition all_call (q ctr : N) (l : list obs) : Prop := Forall (fun o => of_call q ctr o = true) l.
 
@@ -184,6 +160,40 @@ Lemma call_from s b q ctr : call_peer b = Some (q, ctr) -> all_call q ctr (snd (
 Proof.
   destruct b; simpl call_peer; try discriminate; intros H; inversion H; subst; cbn [step];
     apply registry_call_call; intros pe; apply registry_fun_call.
+Qed.
+
+(* what a call of p produced is about p: a delete call as the first half of an overlap *)
+Lemma all_call_from p ctr l : all_call p ctr l -> all_from p l.
+Proof.
+  apply Forall_impl. intros o H. destruct o; simpl in *; try discriminate.
+  - apply andb_true_iff in H. apply H.
+  - destruct k; try discriminate; exact H.
+Qed.
+
+Lemma teardown_from s a p : td_peer a = Some p -> all_from p (snd (step s a)).
+Proof.
+  destruct a; simpl td_peer; try discriminate; intros H; inversion H; subst; cbn [step].
+  - (* DiscoveryReply *)
+    unfold with_source. destruct (find_peer s p) as [pe|] eqn:Ep; [|constructor].
+    destruct (remote_feature pe (nm_addr None)); [|constructor].
+    set (pe0 := {| p_ski := p_ski pe; p_addr := _; p_ents := p_ents pe |}).
+    pose proof (add_entities_ski pe0 m (dm_ents m)) as Hski.
+    destruct (add_entities pe0 m (dm_ents m)) as [pe1 created]. simpl fst in Hski.
+    assert (Hski1 : p_ski pe1 = p) by (rewrite Hski; simpl; exact (find_peer_ski _ _ _ Ep)).
+    match goal with |- context [remove_unlisted ?s2 p ?l ?es] =>
+      pose proof (remove_unlisted_from l es s2 p) as H3; destruct (remove_unlisted s2 p l es) as [s3 evs] end.
+    simpl in *. constructor; [simpl; apply N.eqb_refl|].
+    apply all_from_app; [|exact H3]. rewrite <- Hski1. apply added_from.
+  - (* DiscoveryNotify *)
+    unfold with_source. destruct (find_peer s p) as [pe|]; [|constructor].
+    destruct (remote_feature pe (nm_addr None)); [|constructor].
+    destruct (dm_ents m) as [|d0 dr] eqn:Edm; [apply call_result_from|].
+    rewrite <- Edm. pose proof (notify_entries_from (dm_ents m) s p m) as H1.
+    destruct (notify_entries s p m (dm_ents m)) as [[s1 evs] err]. simpl in *.
+    apply all_from_app; [exact H1 | apply call_result_from].
+  - (* SubDelete *) apply (all_call_from p ctr), (call_from s (SubDelete p ctr ack c)); reflexivity.
+  - (* BindDelete *) apply (all_call_from p ctr), (call_from s (BindDelete p ctr ack c)); reflexivity.
+  - (* Disconnect *) apply disconnect_from.
 Qed.
 
 (* ---------- the split ---------- *)
